@@ -946,12 +946,6 @@ func (g *genState) genByz(s *Sim) Op {
 			escaped = orb[:k] + fmt.Sprintf("\\u%04x", orb[k]) + orb[k+1:]
 			d["denom"], d["amount"] = prefix+DenomUSDC, fmt.Sprint(1000+r.Intn(100000))
 		}
-		defer func(esc string) {
-			if esc != "" {
-				data = []byte(strings.Replace(string(data), `"receiver":"`+orb+`"`, `"receiver":"`+esc+`"`, 1))
-				op.Raw = base64.StdEncoding.EncodeToString(data)
-			}
-		}(escaped)
 		if r.Intn(10) == 0 {
 			// a memo beyond what ibc-go's MsgTransfer would let a user send (only the sending chain bounds it)
 			q := *p
@@ -959,6 +953,9 @@ func (g *genState) genByz(s *Sim) Op {
 			d["memo"], d["denom"], d["amount"] = q.Canonical(), prefix+DenomUSDC, "1000"
 		}
 		data, _ = json.Marshal(d)
+		if escaped != "" {
+			data = []byte(strings.Replace(string(data), `"receiver":"`+orb+`"`, `"receiver":"`+escaped+`"`, 1))
+		}
 	}
 	op.Raw = base64.StdEncoding.EncodeToString(data)
 	return op
